@@ -699,6 +699,8 @@ def g_affordable(line):
     appends to a list item by item, i.e. is quadratic in the compiled driver (0.3 s for 4 KB, 4 s when applied twice)"""
     if len(line) <= 3000:
         return True
+    if len(line) > 100000:
+        return False     # the 64 KiB+ payloads of the hand-model stream: the translated xor works on lists item by item
     w = line.split(" ")
     prog = w[2] if w[0] in ("tr", "re") else w[3]
     return not any(c in ("nb", "nbu") for c in prog[1:].split(","))
@@ -1213,6 +1215,16 @@ def gen0(tier, rng, shard, nshards):
             if term == ("print",):
                 yield "tr", f"tr s s{','.join(enc_code(int_form(e)) for e in chain)} {tail}"
                 yield "re", f"re s s{','.join(enc_code(e) for e in chain)} {tail}"
+
+    # ---- payloads beyond 64 KiB reaching a mask step (block-wise processing must keep the 4-byte key phase)
+    for chain in ([["mask"], ["base64", "mask"], ["mask", "base64url"]] if thorough else [["mask"], ["base64", "mask"]]):
+        if not mine():
+            continue
+        p = C.rbytes(rng, rng.choice([65536, 65537, 70001, 131075]))
+        items = [("block", "output", chain, ("print",))]
+        tail = f"{c2_tokens({'output': p})} N {C.ints([0xA1B2C3D4, 0x01020304])}"
+        yield "tr", f"tr c {prog_token(items)} {tail}"
+        yield "re", f"re c {prog_token(items)} {tail}"
 
     # ---- random valid structured programs
     n_small = (400000 if thorough else 16000) // nshards
